@@ -27,6 +27,15 @@ Static rules (DESIGN.md §C02, engine sa/tabchain.py):
                 nalpha, spline_size); index and derivative are scaled alike; the clip bound is the last knot;
                 cider_ind_etb / cider_ind_zexp applied to get_q2a(q) give back q (python formula substituted into
                 the C function, one logarithm law: log(b**e) = e log b)
+ kernel-derivative  the se_r2 integral function F1 and the se integral F0 satisfy F1/F0 == -d/da log(P F0), P the
+                a-dependent prefactor generate_atc_integrals_vi multiplies every integral with (k_se_r2 = -d/da k_se);
+                term-by-term differentiation of the normal form, both sides compared as fully expanded rational
+                functions of (a, expi, expj, l): pins the closed form of gauss_dida exactly
+ result-used    a same-file module-level function that returns a value on every return and does not visibly write
+                its arguments is not called as a bare statement (solver result dropped on an "in place" branch)
+ symmetric-operand  every matrix expression reaching cholesky / cho_factor / eigh in plans.py (through locals, list
+                appends and comprehensions; helper functions inlined) is invariant under exchanging the row and the
+                column broadcast of each vector it is built from
  delegate-forward  a function of settings.py / plans.py that delegates to a same-module function forwards
                 every parameter the two share, unless it uses it itself (get_cider_exponent_gga -> nspin)
  alpha-degree   units-of-measure: degree (in exponent units) of each integral relative to the `se`
@@ -855,6 +864,8 @@ def rule_kernel_derivative(chk, ic, tu, ends):
     Pm = tc.map_atoms(P, lambda a: ren.get(a), pe)
     if not Pm.single():
         raise core.AnalysisError("prefactor of the integral is not a single product")
+    # only the alpha-dependent factors matter (and are shown)
+    Pm = Poly({tuple((a, e) for a, e in next(iter(Pm.t)) if tc.depends_on(Poly.atom(a), ("sym", "alpha"))): Fr(1)})
     alpha = ("sym", "alpha")
     V0, V1 = ic.value(f0)[0], ic.value(f1)[0]
     if not V0.single():
@@ -1294,6 +1305,237 @@ def rule_inverse_pairs(chk, tus):
 
 
 # ----------------------------------------------------------------------------------------------
+# result-used: the value of a pure-result function is not thrown away
+# ----------------------------------------------------------------------------------------------
+RESULT_FILES = [PLANS, LCONV, "ciderpress/dft/lcao_interpolation.py", "ciderpress/dft/lcao_nldf_generator.py",
+                "ciderpress/pyscf/nldf_convolutions.py", "ciderpress/pyscf/sdmx.py", SETTINGS]
+INPLACE_FUNCS = {"copyto", "put", "place", "fill_diagonal", "putmask", "at", "shuffle"}
+INPLACE_METHODS = {"fill", "sort", "resize", "itemset", "setfield", "append", "extend", "update", "insert", "pop",
+                   "remove", "clear", "add", "setdefault", "partition", "byteswap"}
+
+
+def _writes_params(G):
+    """does the function visibly change an argument in place (stores, augmented assignments, mutating methods,
+    out=, numpy in-place routines, foreign calls)?"""
+    params = {a.arg for a in G.args.args + G.args.kwonlyargs}
+    alias = set(params)
+    for x in pf.walk_no_nested(G):
+        if isinstance(x, ast.Assign) and len(x.targets) == 1 and isinstance(x.targets[0], ast.Name) \
+                and pf.base_name(x.value) in alias and isinstance(x.value, (ast.Name, ast.Subscript, ast.Attribute)):
+            alias.add(x.targets[0].id)
+    for x in pf.walk_no_nested(G):
+        if isinstance(x, (ast.Subscript, ast.Attribute)) and isinstance(x.ctx, ast.Store) and pf.base_name(x) in alias:
+            return True
+        if isinstance(x, ast.AugAssign) and pf.base_name(x.target) in alias:
+            return True
+        if isinstance(x, ast.Call):
+            nm = pf.call_name(x) or ""
+            if isinstance(x.func, ast.Attribute) and x.func.attr in INPLACE_METHODS and pf.base_name(x.func.value) in alias:
+                return True
+            if nm.split(".")[-1] in INPLACE_FUNCS and x.args and pf.base_name(x.args[0]) in alias:
+                return True
+            if any(k.arg == "out" and pf.base_name(k.value) in alias for k in x.keywords):
+                return True
+            if _lib_func(x.func) or (isinstance(x.func, ast.Name) and x.func.id in ("fn", "func")):
+                return True  # foreign (ctypes) call: assume it writes through its pointers
+    return False
+
+
+def rule_result_used(chk):
+    """`f(x, y)` as a statement, f a module-level function of the same file that returns a value on every return and
+    does not visibly modify its arguments: the computed result is lost (`_stable_solve(a, b, overwrite_b=True)` relies
+    on an optimisation hint, not on a contract, to find the solution in b)."""
+    n = 0
+    for rel in RESULT_FILES:
+        if not chk.tree.exists(rel):
+            continue
+        mod = chk.tree.py(rel)
+        top = {f.name: f for f in mod.body if isinstance(f, ast.FunctionDef)}
+        for st in ast.walk(mod):
+            if not (isinstance(st, ast.Expr) and isinstance(st.value, ast.Call) and isinstance(st.value.func, ast.Name)
+                    and st.value.func.id in top):
+                continue
+            G = top[st.value.func.id]
+            n += 1
+            fn = pf.enclosing_func(st)
+            where = pf.qualname(fn) if fn else "<module>"
+            inst = "%s:%s `%s`" % (rel, where, pf.src(st)[:70])
+            rets = [r for r in pf.walk_no_nested(G) if isinstance(r, ast.Return)]
+            valued = [r for r in rets if r.value is not None and not (isinstance(r.value, ast.Constant) and r.value.value is None)]
+            if not valued or len(valued) != len(rets):
+                chk.ok("result-used", inst + " (procedure)", nontrivial=False)
+            elif _writes_params(G) or any(isinstance(x, (ast.Global, ast.Nonlocal)) for x in pf.walk_no_nested(G)) or \
+                    any(isinstance(x, (ast.Yield, ast.YieldFrom)) for x in pf.walk_no_nested(G)):
+                chk.ok("result-used", inst + " (works in place)")
+            else:
+                chk.violation("result-used", rel, where, pf.src(st)[:140], st.lineno,
+                              "%s returns its result (`%s`) and does not modify its arguments, but the call is a statement: "
+                              "the result is discarded and the caller continues with the unchanged input" % (
+                                  G.name, pf.src(valued[-1])[:80]), instance=inst)
+    chk.count("call statements to same-module functions", n)
+
+
+# ----------------------------------------------------------------------------------------------
+# symmetric-operand: what is handed to a triangle-reading factorisation is a symmetric matrix
+# ----------------------------------------------------------------------------------------------
+SYM_CONSUMERS = {"cholesky", "cho_factor", "eigh", "eigvalsh"}
+SYM_FILES = [PLANS]
+
+
+def _element_exprs(e, fn, depth=0):
+    """expressions that can be an element of list expression e (None = unknown source)"""
+    if depth > 6:
+        return None
+    if isinstance(e, (ast.List, ast.Tuple)):
+        return list(e.elts)
+    if isinstance(e, ast.ListComp) and len(e.generators) == 1:
+        g = e.generators[0]
+        if isinstance(e.elt, ast.Name) and isinstance(g.target, ast.Name) and e.elt.id == g.target.id:
+            return _element_exprs(g.iter, fn, depth + 1)
+        return [e.elt]
+    if isinstance(e, ast.BinOp) and isinstance(e.op, ast.Add):
+        a, b = _element_exprs(e.left, fn, depth + 1), _element_exprs(e.right, fn, depth + 1)
+        return None if a is None or b is None else a + b
+    if isinstance(e, ast.Call) and pf.call_name(e) in ("list", "tuple") and len(e.args) == 1:
+        return _element_exprs(e.args[0], fn, depth + 1)
+    if isinstance(e, ast.Name):
+        if e.id in {a.arg for a in fn.args.args + fn.args.kwonlyargs}:
+            return None
+        out, found = [], False
+        for n in pf.walk_no_nested(fn):
+            src = None
+            if isinstance(n, ast.Assign) and len(n.targets) == 1 and isinstance(n.targets[0], ast.Name) and n.targets[0].id == e.id:
+                src = _element_exprs(n.value, fn, depth + 1)
+            elif isinstance(n, ast.AugAssign) and isinstance(n.target, ast.Name) and n.target.id == e.id and isinstance(n.op, ast.Add):
+                src = _element_exprs(n.value, fn, depth + 1)
+            elif isinstance(n, ast.Call) and isinstance(n.func, ast.Attribute) and n.func.attr == "append" \
+                    and isinstance(n.func.value, ast.Name) and n.func.value.id == e.id and len(n.args) == 1:
+                src = [n.args[0]]
+            else:
+                continue
+            found = True
+            if src is None:
+                return None
+            out += src
+        return out if found else None
+    return None
+
+
+def _operand_exprs(arg, call, fn):
+    """matrix expressions that can reach `arg` of a factorisation call"""
+    if isinstance(arg, ast.Name):
+        # loop / comprehension variable?
+        cur = call
+        while cur is not None and cur is not fn:
+            par = pf.parent(cur)
+            if isinstance(par, ast.ListComp):
+                for g in par.generators:
+                    if isinstance(g.target, ast.Name) and g.target.id == arg.id:
+                        return _element_exprs(g.iter, fn)
+            if isinstance(par, ast.For) and isinstance(par.target, ast.Name) and par.target.id == arg.id:
+                return _element_exprs(par.iter, fn)
+            cur = par
+        if arg.id in {a.arg for a in fn.args.args + fn.args.kwonlyargs}:
+            return None
+        defs = [n.value for n in pf.walk_no_nested(fn) if isinstance(n, ast.Assign) and len(n.targets) == 1
+                and isinstance(n.targets[0], ast.Name) and n.targets[0].id == arg.id]
+        out = []
+        for d in defs:
+            if isinstance(d, ast.Name):
+                sub = _operand_exprs(d, call, fn)
+                if sub is None:
+                    return None
+                out += sub
+            else:
+                out.append(d)
+        return out or None
+    return [arg]
+
+
+def _symmetry(expr, fn, top):
+    """True / False / None(undecided): is the matrix built by `expr` equal to its transpose?  Vectors v, v[None, :]
+    (row broadcast) and v[:, None] (column broadcast) are the generators; the expression (module-level helper
+    functions inlined, element-wise arithmetic only) is symmetric iff swapping row and column broadcasts of every
+    vector leaves its normal form unchanged."""
+    pp = tc.PyPoly(fn)
+    pp.matrix_axes = True
+    pp.module_funcs = top
+    try:
+        p = pp.poly(expr)
+    except core.AnalysisError:
+        return None, None
+    vecs = set()
+
+    def all_atoms(q, acc):
+        for a in q.atoms():
+            acc.add(a)
+            k = a[0]
+            if k in ("sum", "guard"):
+                all_atoms(Poly(dict(a[1])), acc)
+            elif k == "pow":
+                all_atoms(Poly(dict(a[1])), acc)
+                all_atoms(Poly(dict(a[2])), acc)
+            elif k == "fn":
+                for x in a[2]:
+                    all_atoms(Poly(dict(x)), acc)
+        return acc
+
+    atoms = all_atoms(p, set())
+    for a in atoms:
+        if a[0] == "sym" and str(a[1]).startswith(("COL:", "ROW:")):
+            vecs.add(str(a[1])[4:])
+    if not vecs:
+        return None, p
+    pe = tc._plain_ev()
+    # a vector used bare next to its column broadcast is the row broadcast
+    p = tc.map_atoms(p, lambda a: Poly.atom(("sym", "ROW:" + a[1])) if a[0] == "sym" and a[1] in vecs else None, pe)
+
+    def swap(a):
+        if a[0] == "sym" and str(a[1]).startswith("ROW:"):
+            return Poly.atom(("sym", "COL:" + a[1][4:]))
+        if a[0] == "sym" and str(a[1]).startswith("COL:"):
+            return Poly.atom(("sym", "ROW:" + a[1][4:]))
+        return None
+    return tc.map_atoms(p, swap, pe) == p, p
+
+
+def rule_symmetric_operand(chk):
+    n = 0
+    for rel in SYM_FILES:
+        mod = chk.tree.py(rel)
+        top = {f.name: f for f in mod.body if isinstance(f, ast.FunctionDef)}
+        for call in ast.walk(mod):
+            if not isinstance(call, ast.Call) or not call.args:
+                continue
+            nm = (pf.call_name(call) or "").split(".")[-1]
+            if nm not in SYM_CONSUMERS:
+                continue
+            fn = pf.enclosing_func(call)
+            if fn is None:
+                continue
+            where = pf.qualname(fn)
+            exprs = _operand_exprs(call.args[0], call, fn)
+            if exprs is None:
+                chk.note("symmetric-operand", "%s:%s" % (rel, where), "operand of %s comes from outside the function; not followed" % nm)
+                continue
+            for e in exprs:
+                sym, p = _symmetry(e, fn, top)
+                inst = "%s:%s %s(%s)" % (rel, where, nm, pf.src(e)[:80])
+                if sym is None:
+                    chk.note("symmetric-operand", inst, "matrix expression outside the element-wise fragment; not decided")
+                    continue
+                n += 1
+                if sym:
+                    chk.ok("symmetric-operand", inst)
+                else:
+                    chk.violation("symmetric-operand", rel, where, pf.src(e)[:140], e.lineno,
+                                  "this matrix is handed to %s, which reads one triangle and assumes the other is its mirror "
+                                  "image, but the expression is not symmetric under exchange of row and column index: %s" % (
+                                      nm, p.text()[:160]), instance=inst)
+    chk.count("factorisation operands decided", n)
+
+
+# ----------------------------------------------------------------------------------------------
 # delegation: a wrapper forwards the parameters it shares with the function it delegates to
 # ----------------------------------------------------------------------------------------------
 DELEGATE_FILES = [SETTINGS, PLANS]
@@ -1404,6 +1646,12 @@ def _analyse_own(chk):
     chk.guard(_t)
     chk.guard(rule_ueg, py)
     chk.guard(rule_delegate_forward)
+    chk.guard(rule_result_used)
+    chk.guard(rule_symmetric_operand)
+    chk.rule("result-used", "a same-module function that only returns its result is not called as a statement")
+    chk.rule("symmetric-operand", "operands of cholesky / cho_factor / eigh are symmetric by construction (row/column exchange)")
+    chk.floor("result-used", 1, "3 call statements to same-module functions today (validators)")
+    chk.floor("symmetric-operand", 5, "coul / ovlp matrices of the SDMX plans")
     chk.guard(rule_inverse_pairs, tus)
 
     def _sph(c):
@@ -1508,6 +1756,18 @@ def mutants(tree):
         Mutant("gga exponent delegates without nspin", SETTINGS, fn=_gga_delegates, expect="delegate-forward"),
         Mutant("coef0 table loses its last admissible entry", cfacts.LIB + "/mod_cider/sph_harm.c", "if (m + 2 <= l) {", "if (m + 2 < l) {",
                expect="sph-harmonic"),
+        Mutant("gauss_dida prefactor with expj in the numerator", F_CONV, "double coefi = (-l / alpha + (1.5 + l) / (alpha + expi));",
+               "double coefi = (1.5 * alpha - l * expj) / (alpha * (alpha + expi));", expect="kernel-derivative"),
+        Mutant("gauss_dida loses the chain-rule factor", F_CONV, "coefi += (1.5 + l) / (expi_conv + expj) * expi * expi /",
+               "coefi += (1.5 + l) / (expi_conv + expj) * expi * alpha /", expect="kernel-derivative"),
+        Mutant("prefactor power of the convolved Gaussian changed", F_CONV, "pow(alphas[q] / (expi + alphas[q]), 1.5 + l) *",
+               "pow(alphas[q] / (expi + alphas[q]), 0.5 + l) *", expect="kernel-derivative"),
+        Mutant("solver result discarded on the in-place branch", PLANS, "p_qu[:] = _stable_solve(transform, p_qu)",
+               "_stable_solve(transform, p_qu)", expect="result-used"),
+        Mutant("SDMX cross term not symmetrised", PLANS, "+ 0.25 * _get_int_0(n, prod, asum)\n                        + 0.25 * _get_int_0(n, prod, bsum)",
+               "+ 0.5 * _get_int_0(n, prod, asum)", expect="symmetric-operand"),
+        Mutant("coul matrix built from the row vector only", PLANS, "coul = 4 * np.sqrt(2 / np.pi) * prod**0.75 / sum\n",
+               "coul = 4 * np.sqrt(2 / np.pi) * prod**0.75 / (2 * self.alphas)\n", expect="symmetric-operand"),
         Mutant("knot-index scaling off by one", PLANS, "di[:] *= (self._spline_size - 1) / (self.nalpha - 1)",
                "di[:] *= self._spline_size / self.nalpha", expect="inverse-pair"),
         Mutant("knot layout off by one", PLANS, "interp_indexes * (self.nalpha - 1) / (self._spline_size - 1)",
